@@ -188,6 +188,20 @@ func ErrorProvenance(p *load.Prog, r *oblig.Report, rule string, pkg string, sen
 				if callee != nil && inSet[callee] && returnsError(callee) >= 0 {
 					return // judged at the callee
 				}
+				if callee == nil && !x.Common().IsInvoke() {
+					// dispatch through a function value (strategy table, selector helper): judged at each possible callee
+					if targets, complete := FuncTargets(x.Common().Value); complete && len(targets) > 0 {
+						allIn := true
+						for _, t := range targets {
+							if !inSet[t] || returnsError(t) < 0 {
+								allIn = false
+							}
+						}
+						if allIn {
+							return
+						}
+					}
+				}
 				if s := wrapsSentinel(x, sent); s != "" {
 					n++
 					r.OK(rule, fmt.Sprintf("error-origin:%s:Errorf %%w %s", load.FuncName(f), s), p.Pos(x.Pos()), "wraps-sentinel", s)
